@@ -11,6 +11,8 @@ ID = "C07"
 LEVEL = "exploration"
 TECHNIQUE = "deterministic simulation: seeded interleaving of caller operations vs reference FIFO model"
 QUICK_RUNS = 72000
+TWIN_P = 0.1   # a tenth of the runs drive two queues one after the other (see detsim.runner._run_scenario)
+USES_DEPTH = True   # thorough tier: history length bound scales with sim.depth (1..3) beyond the quick tier\'s run indices
 BATCH = 400
 COMPONENTS = {"real": ["twisted.internet.defer.DeferredQueue", "twisted.internet.defer.Deferred"],
               "stub": ["order in which independent callers issue operations (tape)"]}
@@ -50,7 +52,7 @@ class Model:
 def run(sim):
     size = sim.draw_choice([None, 0, 1, 2, 3], "size")
     backlog = sim.draw_choice([None, 0, 1, 2, 3], "backlog")
-    nops = sim.draw_int(3, 40, "nops")
+    nops = sim.draw_int(3, 40 * sim.depth, "nops")
     reent_p = sim.draw_choice([0.0, 0.0, 0.3], "reentrancy")
     sim.config = {"size": size, "backlog": backlog, "nops": nops, "reentrant": reent_p}
     q = defer.DeferredQueue(size=size, backlog=backlog)
@@ -150,7 +152,7 @@ def run(sim):
             do_cancel()
 
     for _ in range(nops):
-        sim.step(200)
+        sim.step(200 * sim.depth)
         ops = [("put", 5), ("get", 5), ("cancel", 2 if pending else 0)]
         do_op(sim.draw_weighted(ops, "op"))
         # cross-invariants after every operation
